@@ -45,12 +45,12 @@ Example C03_example_accept : alpha_eq f1 f2 = true.
 Proof. vm_compute. reflexivity. Qed.
 Example C03_example_reject : alpha_eq f1 f3 = false /\ alpha_eq f1 f4 = false.
 Proof. split; vm_compute; reflexivity. Qed.
-(* labels 5 = add, 6 = less-than on N: f1 and f4 return different values on argument 1 *)
+(* labels 5 = add, 6 = greater-than on N: f1 returns 4 and f4 returns 5 on argument 1 *)
 Example C03_example_separates :
   let sem := fun (l : N) (vs : list N) (s : unit) =>
      match l, vs with
      | 5, [a; b] => Some (s, a + b)
-     | 6, [a; b] => Some (s, if a <? b then 1 else 0)
+     | 6, [a; b] => Some (s, if b <? a then 1 else 0)
      | _, _ => None end in
   behaves unit N (fun c => c) sem (fun v => negb (v =? 0)) (fun _ _ s => s) 5 f1 [1] tt <>
   behaves unit N (fun c => c) sem (fun v => negb (v =? 0)) (fun _ _ s => s) 5 f4 [1] tt.
